@@ -295,6 +295,9 @@ class AbstractExcelInPython(ABC):
                 for index, value in enumerate(lookup_array):
                     if isinstance(value[0], self.EmptyCell) or not isinstance(value[0], lookup_value_type):
                         continue
+                    if isinstance(value[0], bool) != isinstance(lookup_value, bool):
+                        # a logical is no number: TRUE is not the key 1 (bool is a kind of int for Python only)
+                        continue
                     if value[0].lower() == lookup_value.lower() if isinstance(value[0], str) else value[0] == lookup_value:
                         return index + 1
                 return '#N/A'
@@ -302,6 +305,9 @@ class AbstractExcelInPython(ABC):
                 last_valid_index = '#N/A'
                 for index, value in enumerate(lookup_array):
                     if isinstance(value[0], self.EmptyCell) or not isinstance(value[0], lookup_value_type):
+                        continue
+                    if isinstance(value[0], bool) != isinstance(lookup_value, bool):
+                        # a logical is no number: TRUE is not the key 1 (bool is a kind of int for Python only)
                         continue
                     if value[0].lower() <= lookup_value.lower() if isinstance(value[0], str) else value[0] <= lookup_value:
                         last_valid_index = index + 1
@@ -312,6 +318,9 @@ class AbstractExcelInPython(ABC):
                 last_valid_index = '#N/A'
                 for index, value in enumerate(lookup_array):
                     if isinstance(value[0], self.EmptyCell) or not isinstance(value[0], lookup_value_type):
+                        continue
+                    if isinstance(value[0], bool) != isinstance(lookup_value, bool):
+                        # a logical is no number: TRUE is not the key 1 (bool is a kind of int for Python only)
                         continue
                     if value[0].lower() >= lookup_value.lower() if isinstance(value[0], str) else value[0] >= lookup_value:
                         last_valid_index = index + 1
@@ -369,6 +378,9 @@ class AbstractExcelInPython(ABC):
             if not isinstance(row[0], lookup_value_type):
                 if not is_number(row[0]) or not is_number(lookup_value):
                     continue
+            if isinstance(row[0], bool) != isinstance(lookup_value, bool):
+                # a logical is no number: TRUE is not the key 1 (bool is a kind of int for Python only)
+                continue
 
             key, wanted = row[0], lookup_value
             if isinstance(key, str) and isinstance(wanted, str):
